@@ -71,6 +71,8 @@ Fragment(j) == T[j].k \in {"cls", "gen", "typeof"}
 PairLaw12(a, b) ==
   IF O[a][b] # Opp(O[b][a]) THEN "mirror"
   ELSE IF a = b /\ O[a][b] # "SAME" THEN "refl_same"
+  \* every type is the same as itself, also when it is written a second time (another annotation object)
+  ELSE IF a = b /\ "twin" \in DOMAIN Tab.rows[a] /\ Tab.rows[a].twin # <<"SAME", "SAME">> THEN "refl_same.written_twice"
   ELSE IF IsCls(a) /\ IsCls(b) /\ O[a][b] # ClsOrder(a, b) THEN "classes_iff_subclass"
   ELSE IF T[a].k = "union" /\ b \in RangeS(T[a].args)
           /\ O[a][b] # (IF \A x \in RangeS(T[a].args) : O[x][b] \in {"LESS", "SAME"} THEN "SAME" ELSE "MORE")
